@@ -155,7 +155,7 @@ class ExpandSurface(core.Surface):
     theorem = "C08_ci (membership of each catalogue entry)"
 
     def impl(self, x):
-        from pycfmodel.action_expander import _expand_action
+        _expand_action = core.helper("pycfmodel.action_expander:_expand_action")
         return core.impl_call(lambda: _expand_action(x["p"]))
 
     def model(self, rn, x):
@@ -175,7 +175,7 @@ class ExpandListSurface(core.Surface):
     theorem = "C08_ci (membership of each catalogue entry, per member)"
 
     def impl(self, x):
-        from pycfmodel.action_expander import _expand_actions
+        _expand_actions = core.helper("pycfmodel.action_expander:_expand_actions")
         return core.impl_call(lambda: _expand_actions(list(x["ps"])))
 
     def model(self, rn, x):
